@@ -24,7 +24,7 @@ func TestMain(m *testing.M) {
 func TestReplay(t *testing.T) { props.ReplayMain(t, *replayFile) }
 
 var faultKindsSSH = []string{"error", "garbage", "warnerror", "badecho", "close", "stall"}
-var faultKindsHTTP = []string{"http500", "http503", "http403", "malformed", "status-error", "close", "stall"}
+var faultKindsHTTP = []string{"http500", "http503", "http403", "http500-empty", "http401-empty", "malformed", "status-error", "close", "stall"}
 
 func drawFault(rt *rapid.T, fam string, maxPos int, allowStall bool) FaultSpec {
 	kinds := faultKindsSSH
